@@ -237,7 +237,9 @@ impl Polynomial<Cmplx> {
             roots[2] = roots[0];
         } else {
             let sqrt = (- 27. * a * a * dis).sqrt();
-            let base = if d1 < Cmplx::zero() { d1 - sqrt } else { d1 + sqrt } / 2.;
+            // Pick the sign that avoids cancellation in d1 +- sqrt (for complex d1 the lexicographic test
+            // d1 < 0 says nothing about it: x^3 + i gave d1 = 27i, sqrt = -27i and base = 0)
+            let base = if ( d1.conj() * sqrt ).real < 0.0 { d1 - sqrt } else { d1 + sqrt } / 2.;
             if base == Cmplx::zero() { // d1 and the discriminant vanish: d0 is zero up to rounding, 3 equal roots
                 roots[0] = -b / ( 3. * a );
                 roots[1] = roots[0];
